@@ -1,16 +1,21 @@
 #!/usr/bin/env bash
-# tools/seedtest.sh <seed-dir> <property> : confirm a seeded defect and run the check against it.
-# The check's evidence record of the broken tree goes to a scratch directory (VERIF_EVIDENCE_DIR),
-# never to /verif/evidence, which only ever holds records of runs on the unchanged tree.
+# tools/seedtest.sh <seed-dir> <property> [<property>...] : confirm a seeded defect and run the check(s)
+# against it.  The change is applied to a scratch git worktree of /repo (under /var/tmp, removed
+# afterwards), never to /repo itself, so several seeds can be tried at once and a running check of the
+# unchanged tree is not disturbed; the check reads the worktree through VERIF_REPO.  The evidence record
+# of the broken tree goes to a scratch directory (VERIF_EVIDENCE_DIR), never to /verif/evidence.
 set -u
-seed="$1"; pid="$2"
-cd /repo || exit 3
-git diff --quiet || { echo "repo dirty"; exit 3; }
+seed="$(cd "$1" && pwd)"; shift
 scratch="$(mktemp -d /var/tmp/verif_seed.XXXXXX)"
-export VERIF_EVIDENCE_DIR="$scratch"
-echo "== demo on unchanged tree"; (cd /tmp && PYTHONPATH=/repo /venv/bin/python "$seed/demo.py" >/dev/null 2>&1; echo "exit=$?")
-git apply "$seed/patch.diff" || { echo "patch does not apply"; rm -rf "$scratch"; exit 3; }
-echo "== demo with the change"; (cd /tmp && PYTHONPATH=/repo /venv/bin/python "$seed/demo.py" >/dev/null 2>&1; echo "exit=$?")
-echo "== check"; (cd /verif && bin/vcheck "$pid" 2>&1 | grep -E "VIOLATION|UNDECIDED|CHECKER|KNOWN|obligations" | cut -c1-250; echo "check-exit=${PIPESTATUS[0]}")
-git checkout -- .
-rm -rf "$scratch"
+wt="$scratch/wt"
+git -C /repo worktree add -q --detach "$wt" HEAD || { echo "cannot create worktree"; exit 3; }
+cleanup() { git -C /repo worktree remove --force "$wt" 2>/dev/null; rm -rf "$scratch"; }
+trap cleanup EXIT
+export VERIF_EVIDENCE_DIR="$scratch/ev"
+echo "== demo on unchanged tree"; (cd /tmp && PYTHONPATH="$wt" timeout 600 /venv/bin/python "$seed/demo.py" >/dev/null 2>&1; echo "exit=$?")
+git -C "$wt" apply "$seed/patch.diff" || { echo "patch does not apply"; exit 3; }
+echo "== demo with the change"; (cd /tmp && PYTHONPATH="$wt" timeout 600 /venv/bin/python "$seed/demo.py" >/dev/null 2>&1; echo "exit=$?")
+for pid in "$@"; do
+  echo "== check $pid"
+  (cd /verif && VERIF_REPO="$wt" bin/vcheck "$pid" 2>&1 | grep -E "VIOLATION|UNDECIDED|CHECKER|KNOWN|obligations|failed obligation" | cut -c1-250; echo "check-exit=${PIPESTATUS[0]}")
+done
